@@ -21,8 +21,17 @@
    within its fuel either, the case is counted undecided and the two unfinished charts must agree in lock step.
    While the source has the OLD admission rule (translator: policy `impl`) a divergence inside the model's class
    `hasEpsCycle` is routed to `C06/nullable-under-unbounded-repetition`, a prefix divergence inside `prefix_cycle` to
-   `C06/prefix-completion-cycle` (both fixed in /repo: a hit is a violation again).  Prefix mode is not modelled:
-   prefix requests over the limit are counted inside the cyclic classes and decided by a 10x re-run outside them.
+   `C06/prefix-completion-cycle` (both fixed in /repo: a hit is a violation again).
+   PREFIX MODE is modelled (`Model/EarleyPrefix.lean`, theorem `C06_prefix_terminates`): for every case the recorded
+   `parse_forest(word, mode=INCOMPLETE)` run of the real parser (a grammar object of its own; per column the admitted
+   states — in the last column also the incomplete states and the states the forced completions add, each with its
+   `is_incomplete` flag — and the yielded trees) is compared with `parsePrefix` of the model (`judge_prefix`: states per
+   column as multisets, yielded trees as a multiset; a request abandoned after `max_trees` = 300 trees is compared at
+   that point: the model is stopped after as many yields).  The second regex oracle (`regex` module, partial matching)
+   is computed by the harness independently of fandango.  A prefix request over the step limit is decided by the
+   model like a forest request (model finishes in S steps -> the real parser must finish within (maxAlts + 2) * S;
+   model does not finish within its fuel either -> lock step); only where the model was not asked (sample cap) the
+   old rule applies (counted inside the cyclic classes, 10x re-run outside them).
 4. fuzzing steps that parse internally (generator output parsed under its nonterminal; equality repair parsing the
    wanted value) run under the same meter; a fuzz run over its limit is reduced to the parse request it makes
    internally, which is judged as in 3.
@@ -53,9 +62,15 @@ TRUSTED = [
     "translator harness/translate_earley.py (which fields hash/eq use, the membership test of Column.add, the covering cut)",
     "CPython `re.match` as the greedy regex-length oracle; the iteration order of the Python sets `predict` builds is "
     "recorded from the real run and passed to the model (every theorem holds for all orders)",
-    "prefix (INCOMPLETE) mode, incomplete states, computed repetitions are not modelled: prefix / first-tree requests are "
-    "only observed under the step meter; the prefix divergence class `prefix_cycle` is computed by the harness (Python) "
-    "from the real compiled rule table",
+    "hand-written model lean/Model/EarleyPrefix.lean of INCOMPLETE mode (one-shot: the incomplete states of scan_bytes / "
+    "scan_regex, the end-of-input pass of _consume with its forced completions, `_incomplete`, yield order); tied by this "
+    "run's comparison of the recorded prefix run (states per column incl. incomplete / force-completed ones, yielded trees); "
+    "one documented deviation (an ordinary state admitted to the last column after an incomplete state with the same item "
+    "and children) would show as a correspondence failure",
+    "the `regex` module's partial matching as the oracle for `Terminal.check(…, incomplete=True)`, computed by the harness",
+    "computed repetitions, incremental feeding (several consume() calls), starter_bit, hookin_parent are not modelled; the "
+    "first-tree request is only observed under the step meter; the prefix divergence class `prefix_cycle` is computed by "
+    "the harness (Python) from the real compiled rule table (only used for a source that went back to the OLD code)",
     "step meter = monkeypatched Column.add / IterativeParser.complete / ParseState.__init__ (wrappers only)",
 ]
 
@@ -188,7 +203,7 @@ def prefix_cycle(rules: dict) -> bool:
 
 
 def model_runs(reals: list[dict], tasks: list[dict], policy: str, variant: dict,
-               tier: str) -> tuple[list[Optional[dict]], list[Optional[dict]]]:
+               tier: str) -> tuple[list[Optional[dict]], list[Optional[dict]], list[Optional[dict]]]:
     """(core run, generated-variant run) per case (None where the real side gave no grammar).  The variant run is
     asked where the real parser finished, with fuel proportional to the real meter, and — with the small fuel
     EXPLOSION_FUEL, for at most N_LOCKSTEP cases — where a forest / first-tree request was stopped by the step meter
@@ -217,12 +232,37 @@ def model_runs(reals: list[dict], tasks: list[dict], policy: str, variant: dict,
             continue
         reqs.append(eio.model_request(r, t, variant, fuel))
         where.append((i, 1))
+    # prefix mode (Model/EarleyPrefix.lean): the recorded INCOMPLETE run of the real parser against the model — where
+    # the real request came back (whole forest or the first `max_trees` trees), and, with a small fuel, where it was
+    # stopped by the step meter (decided by the model like the forest requests)
+    n_plock = 0
+    for i, (t, r) in enumerate(zip(tasks, reals)):
+        modes = r.get("modes") or {}
+        rec = modes.get("prefix_rec")
+        if not rec or "cols" not in rec:
+            continue
+        pst = modes.get("prefix")
+        if pst in ("ok", "truncated") or (str(pst).startswith("exc:") and pst != "exc:RecursionError"):
+            if int(modes.get("prefix_adds", 0)) > 6000:
+                continue
+            fuel = 40 * int(modes.get("prefix_steps", 0)) + 5000
+        elif pst in BAD:
+            n_plock += 1
+            if n_plock > (N_LOCKSTEP if tier == "quick" else 4 * N_LOCKSTEP):
+                continue
+            fuel = EXPLOSION_FUEL
+        else:
+            continue
+        reqs.append(eio.prefix_request(rec, t, variant, fuel, int(t.get("max_trees", 300)),
+                                       stop_trees=len(rec.get("forest") or []) if pst == "truncated" else 0))
+        where.append((i, 2))
     answers = driver_ask("drv_earley", reqs, timeout=1500) if reqs else []
     core: list[Optional[dict]] = [None] * len(tasks)
     pol: list[Optional[dict]] = [None] * len(tasks)
+    pre: list[Optional[dict]] = [None] * len(tasks)
     for (i, which), a in zip(where, answers):
-        (core if which == 0 else pol)[i] = a
-    return core, pol
+        (core, pol, pre)[which][i] = a
+    return core, pol, pre
 
 
 def diverged(r: dict) -> Optional[str]:
@@ -331,13 +371,95 @@ def judge_unbounded(run: Run, items: list) -> None:
             run.count("unbounded:large_finite_forest")
 
 
+def judge_prefix(run: Run, t: dict, r: dict, pp: Optional[dict], corr_failures: list) -> None:
+    """correspondence of prefix mode: the recorded INCOMPLETE run of the real parser against `parsePrefix` of the model —
+    same outcome, the same admitted states in every column (the last column with the incomplete states and the states
+    the forced completions add, each with its `is_incomplete` flag; multisets), the same multiset of yielded trees (a
+    request cut off after `max_trees` trees: the first `max_trees` yields of both sides, the model yields in the
+    same order), and the real parser's metered work within (maxAlts + 2) x the model's steps"""
+    modes = r.get("modes") or {}
+    rec = modes.get("prefix_rec")
+    pst = str(modes.get("prefix"))
+    if rec is None:
+        return
+    if "not_modelled" in rec:
+        run.count("prefix:not_modelled:" + str(rec["not_modelled"])[:40])
+        return
+    if pst in BAD:
+        return                                      # judged with the divergences
+    if pp is None:
+        run.count("corr:prefix_skipped_big" if "cols" in rec else "corr:prefix_no_record:" + pst[:30])
+        return
+    case = replay_dict(t, {"mode": "prefix"})
+    if pst.startswith("exc:") and pst != "exc:IndexError":
+        corr_failures.append({"case": case, "what": f"prefix request: real parser raised {pst}, not modelled"})
+        return
+    # (a request abandoned after `max_trees` trees: the model was stopped after as many yields, both charts are as they
+    # are at that point — the generator is suspended at the yield, before the `complete` call that follows it)
+    want = "raised" if pst.startswith("exc:") else "stopped" if pst == "truncated" else "done"
+    if pp["status"] == "fuel":
+        corr_failures.append({"case": case, "what": "prefix request: model ran out of fuel, real finished",
+                              "steps": pp["steps"], "real_steps": modes.get("prefix_steps")})
+        return
+    if pp["status"] != want:
+        corr_failures.append({"case": case, "what": f"prefix request: real {pst}, model {pp['status']}"})
+        return
+    if want == "raised":
+        run.count("corr:prefix_raised_equal")
+        return
+    mcols, rcols = eio.canon_cols(pp["cols"]), eio.canon_cols(rec["cols"])
+    if mcols != rcols:
+        k = next((i for i, (a, b) in enumerate(zip(mcols, rcols)) if a != b), -1)
+        a, b = (mcols[k], rcols[k]) if k >= 0 else ([], [])
+        corr_failures.append({"case": case, "what": f"prefix request: admitted states differ in column {k} of {len(rcols)} "
+                              f"(model has {len(mcols)} columns)",
+                              "model_only": [x for x in a if x not in b][:3], "real_only": [x for x in b if x not in a][:3]})
+        return
+    mf, rf = eio.canon_forest(pp["forest"]), eio.canon_forest(rec["forest"])
+    if pst == "ok" and int(pp["nforest"]) != len(rec["forest"]):
+        corr_failures.append({"case": case, "what": f"prefix request: real yields {len(rec['forest'])} trees, model {pp['nforest']}"})
+        return
+    if pst == "truncated" and int(pp["nforest"]) < len(rec["forest"]):
+        corr_failures.append({"case": case, "what": f"prefix request: real yields at least {len(rec['forest'])} trees, "
+                              f"the model's whole forest has {pp['nforest']}"})
+        return
+    if mf != rf:
+        corr_failures.append({"case": case, "what": "prefix request: yielded trees differ"
+                              + (" (first max_trees yields)" if pst == "truncated" else ""),
+                              "model_only": [x for x in mf if x not in rf][:2], "real_only": [x for x in rf if x not in mf][:2]})
+        return
+    run.count("corr:prefix_equal")
+    run.count("corr:prefix_trees", len(rf))
+    # observations on the real partial trees (the subject of C04 carried over to prefix mode; counted here, the model's
+    # trees are the same trees): the leaves spell the whole input, no helper symbol survives the collapse
+    for o in rec.get("out") or []:
+        run.count("prefix_obs:leaves_spell_the_whole_input" if o.get("value_ok") else "prefix_obs:VALUE_DIFFERS_FROM_INPUT")
+        if o.get("helpers"):
+            run.count("prefix_obs:HELPER_SYMBOL_IN_PARTIAL_TREE")
+        if o.get("root") != t["start"]:
+            run.count("prefix_obs:ROOT_IS_NOT_THE_START_SYMBOL")
+    n_inc = sum(1 for s in rec["cols"][-1] if len(s) > 5 and s[5]) if rec["cols"] else 0
+    if n_inc:
+        run.count("corr:prefix_equal_with_incomplete_states")
+    if int(pp["steps"]) > int(pp["phaseA"]) + 3:
+        run.count("corr:prefix_equal_with_forced_completions")
+    if pst == "truncated":
+        run.count("corr:prefix_equal_first_max_trees_only")
+    bound = (eio.max_alts(rec.get("rules") or {}) + 2) * int(pp["steps"]) + 100
+    if int(modes.get("prefix_steps", 0)) > bound:
+        run.report("C06/work-explosion", f"prefix request: {modes.get('prefix_steps')} metered steps, the model needs "
+                   f"{pp['steps']} steps (bound {bound}): {t['spec'].strip()!r} on {eio.word_of(t['word'])!r}", case)
+
+
 def judge(run: Run, tasks: list[dict], reals: list[dict], core: list, pol: list, policy: str,
-          corr_failures: list, info: dict, undecided: list, unbounded_outside: list) -> None:
+          corr_failures: list, info: dict, undecided: list, unbounded_outside: list,
+          pre: Optional[list] = None) -> None:
     # which divergences the *code as it is* is expected to show (from the translated policy): with the acyclic cut
     # in place a request that does not come back inside a class is an ambiguity explosion like anywhere else
     eps_expected = policy == "impl"
     left_expected = not info.get("prefix_cut")
-    for t, r, mc, mp in zip(tasks, reals, core, pol):
+    pre = pre if pre is not None else [None] * len(tasks)
+    for t, r, mc, mp, pp in zip(tasks, reals, core, pol, pre):
         st = r["status"]
         for tag in t["tags"]:
             run.count("tag:" + tag)
@@ -360,6 +482,8 @@ def judge(run: Run, tasks: list[dict], reals: list[dict], core: list, pol: list,
         if mc["status"] == "fuel":
             corr_failures.append({"case": replay_dict(t), "what": "model core policy did not finish within the fuel",
                                   "steps": mc["steps"]})
+        # (2') correspondence of prefix mode
+        judge_prefix(run, t, r, pp, corr_failures)
         # (3) the property on the real code
         pcyc = prefix_cycle(r.get("rules") or {})
         if pcyc:
@@ -398,6 +522,30 @@ def judge(run: Run, tasks: list[dict], reals: list[dict], core: list, pol: list,
                 #                                  at different points, must agree in lock step (prefix comparison).
                 # Prefix requests are not modelled: inside the cyclic classes they are counted, outside them the old
                 # 10x re-run decides (no exponential ambiguity there).
+                if which == "prefix" and pp is not None:
+                    # prefix mode is modelled (Model/EarleyPrefix.lean; theorem C06_prefix_terminates): decided like the
+                    # forest requests, by the model run on the recorded prefix request
+                    prec = (r.get("modes") or {}).get("prefix_rec") or {}
+                    if pp["status"] in ("done", "raised"):
+                        bound = (eio.max_alts(prec.get("rules") or {}) + 2) * int(pp["steps"]) + 100
+                        big = {**t, "modes": True, "step_limit": max(bound, int(t.get("step_limit") or STEP_LIMIT)), "cap_s": 240.0}
+                        rr = eio.run_pool([big], workers=1, backstop_s=120.0)[0]
+                        if "grammar" in rr and diverged(rr) == "prefix" and not wallclock_only(rr, "prefix"):
+                            run.report("C06/divergence", what + f" — the model of prefix mode (variant of the source) finishes "
+                                       f"this case in {pp['steps']} steps, the real parser is still running after "
+                                       f"{big['step_limit']} metered steps (the bound derived from the model)",
+                                       replay_dict(t, {"class": "model-terminates", "mode": "prefix", "step_limit": big["step_limit"]}))
+                        else:
+                            run.count("diverged:prefix_finished_within_model_derived_bound")
+                        continue
+                    bad = eio.lockstep_mismatch(pp["cols"], prec.get("cols") or [])
+                    if bad is not None:
+                        corr_failures.append({"case": replay_dict(t, {"mode": "prefix"}), "what": "prefix request, lock-step "
+                                              "comparison of two unfinished runs: the charts differ in column "
+                                              f"{bad['column']} at position {bad['index']}", "model": bad["model"], "real": bad["real"]})
+                    else:
+                        run.count("undecided:prefix_explosion_model_in_lock_step")
+                    continue
                 if which == "prefix":
                     if eps or pcyc:
                         run.count("undecided:prefix_explosion_inside_cyclic_class")
@@ -649,8 +797,8 @@ def judge_fuzz(run: Run, ftasks: list[dict], fres: list[dict], policy: str, unde
                        "cap_s": 90.0, "step_limit": STEP_LIMIT, "max_trees": 300, "modes": True, "eps_pre": t["eps"],
                        "tags": ["fuzz_internal_parse", "fuzz_request_mode:" + str(lr.get("mode", "?"))]})
     preals = eio.run_pool(ptasks, workers=14, backstop_s=120.0)
-    pcore, ppol = model_runs(preals, ptasks, policy, ctx["variant"], ctx["tier"])
-    judge(run, ptasks, preals, pcore, ppol, policy, ctx["corr_failures"], ctx["info"], undecided, ctx["unbounded_outside"])
+    pcore, ppol, ppre = model_runs(preals, ptasks, policy, ctx["variant"], ctx["tier"])
+    judge(run, ptasks, preals, pcore, ppol, policy, ctx["corr_failures"], ctx["info"], undecided, ctx["unbounded_outside"], ppre)
     for (t, r, what, rp), pr in zip(over, preals):
         if "grammar" not in pr:
             run.count("undecided:fuzz_over_limit_internal_parse_request_not_reproduced:" + str(pr.get("status"))[:40])
@@ -690,8 +838,8 @@ def main(tier: str) -> int:
     corr_failures.extend(bad_tables)
     run.count("corr:compiled_tables_compared", n_tables)
     run.count("corr:compiled_tables_equal", n_tables - len(bad_tables))
-    core, pol = model_runs(reals, tasks, policy, variant, tier)
-    judge(run, tasks, reals, core, pol, policy, corr_failures, info, undecided, unbounded_outside)
+    core, pol, pre = model_runs(reals, tasks, policy, variant, tier)
+    judge(run, tasks, reals, core, pol, policy, corr_failures, info, undecided, unbounded_outside, pre)
     run.coverage["t_parse_phase_s"] = round(run.budget_left(0) * -1, 1)
     comp_eps = {}
     for t, mc in zip(tasks, core):
@@ -730,6 +878,9 @@ def main(tier: str) -> int:
              "in a worker under a step meter and an alarm (forest, first-tree, prefix requests); nontrivial = some later "
              "column holds more than one state",
         explanation="per case: model core policy finishes (theorem), model with the generated policy admits the same "
-                    "states per column and yields the same forest as the real parser; a request that does not return is a "
-                    "known finding inside hasEpsCycle and a violation outside",
+                    "states per column and yields the same forest as the real parser — in COMPLETE mode and in prefix "
+                    "(INCOMPLETE) mode (there: incomplete and force-completed states of the last column included, the "
+                    "yielded complete + partial trees as a multiset); a request that does not return is decided by the "
+                    "model's own step count (violation if the model terminates and the real parser does not within the "
+                    "derived bound)",
         trusted_base=TRUSTED)
